@@ -158,7 +158,11 @@ def parse_message(
 
     # For backward compatibility, try to parse with JSONRPCMessage first
     try:
-        return JSONRPCMessage.model_validate(data)  # type: ignore[attr-defined]
+        message = JSONRPCMessage.model_validate(data)  # type: ignore[attr-defined]
+        # An object with neither a method nor an id is not a JSON-RPC message
+        # (the unified model has only optional fields and would accept any dict)
+        if message.method is not None or message.id is not None:
+            return message
     except Exception:
         pass
 
